@@ -10,11 +10,12 @@ import SpVerif.Drive.Engine
 import SpVerif.Drive.Callables
 import SpVerif.Drive.Fields
 import SpVerif.Drive.Subclass
+import SpVerif.Drive.Serial
 open Lean SpVerif.Drive
 
 /-- every op of every per-property driver module: add `++ <module>Ops` here -/
 def allOps : List (String × (Json → R Json)) :=
-  namingOps ++ conflictsOps ++ replaceOps ++ docScanOps ++ engineOps ++ callablesOps ++ fieldsOps ++ subclassOps
+  namingOps ++ conflictsOps ++ replaceOps ++ docScanOps ++ engineOps ++ callablesOps ++ fieldsOps ++ subclassOps ++ serialOps
 
 def dispatch (op : String) (c : Json) : R Json :=
   match allOps.lookup op with
